@@ -86,7 +86,7 @@ PROPS["C05"] = dict(
            "balancing step: one call, fee request Unspecified / NotLess / Exactly, prefer_pure_change and do_not_burn_extra_change both ways, 0..2 packed bundles per round, 1 round (quick) / 2 rounds (thorough), "
            "change datum / script reference absent (quick) or arbitrary (thorough)",
     assumptions=["Value operations act pointwise as stated in mir2smt/valuemodel.py (summaries established by the C14 obligations on shaped bundles)",
-                 "balancing step: the raw size-dependent min_fee(&builder), MinOutputAdaCalculator, pack_nfts_for_change and add_output are stubs with arbitrary results whose failure is explored at the first call of each kind per path; "
+                 "balancing step: without_zero_assets (dropping entries with quantity 0) is the identity in the pointwise abstraction - a quantity of 0 and an absent entry are the same point; what it does to concrete bundles is C03's obligation; the raw size-dependent min_fee(&builder), MinOutputAdaCalculator, pack_nfts_for_change and add_output are stubs with arbitrary results whose failure is explored at the first call of each kind per path; "
                  "get_input_shortage returns an arbitrary verdict; TransactionBuilder::min_fee / fee_for_output enter through contracts proved from their MIR by c05_e2_fee_alignment_*; one output is already present in the builder; "
                  "panicking paths are outside the property (it speaks about reported successes) and are only counted in the log",
                  "coin selection (add_inputs_from) is C08's claim; callees named in each obligation are uninterpreted pure functions of the (unmodified) builder"],
